@@ -188,6 +188,10 @@ class Globals:
 
     def reset_slots(self):
         "At the beginning of every iteration, reset the forward reference slots"
+        old_transients = getattr(self, "transients", None)
+        if old_transients:
+            for slot in old_transients.named_slots.values():
+                slot.expired = True
         self.transients = Transients(self.nicknames_and_tables, self.id_manager)
 
     def check_slots_filled(self):
